@@ -8,10 +8,11 @@ Clauses (stable violation ids)
 
   whole state, original vs loaded       db.type db.name db.serial db.child-count db.child-order
                                         db.child-order.resorted db.parent-link db.grid db.locator db.locator-global
-                                        db.param-differs db.param-none-to-default db.param-nan-to-none
-                                        db.param-empty-to-none db.param-unset-after-load db.material
-                                        db.temperature db.dimension db.dimension-link db.numdens db.volume db.mass
-                                        db.write-error db.load-error
+                                        db.locator.coordinate-to-index db.param-differs.<parameter name>
+                                        db.param-none-to-default db.param-nan-to-none db.param-empty-to-none
+                                        db.param-array-with-none db.param-unset-after-load db.material
+                                        db.temperature db.dimension db.dimension.none-to-value db.dimension-link
+                                        db.numdens db.volume db.mass db.area db.write-error db.load-error
   load the same snapshot twice          db.double-load.<clause>   (clause = locator, param-differs, child-order, ...)
   save a loaded reactor, load again     db.resave.<clause>  db.resave.error
   edge-value probes (one assignment)    the ids above, and db.write-error.<probe> / db.load-error.<probe>
@@ -22,12 +23,17 @@ Clauses (stable violation ids)
     Layout.computeAncestors             layout.ancestors
     StructuredGrid.reduce -> cls(*...)  grid.reduce grid.reduce-coords
 
+Every id is reported once per run (first failing, replayable state + counts of states/objects/classes).
+Not compared as raw parameters: Component.p.volume / p.area (documented lazy caches, observed through
+getVolume()/getArea()); the spelling 'hex_corners_up' vs 'hex' of the same geometry type (recorded in
+``geomType_spelling_normalised_by_rebuild``).  States in which a mutation made components overlap, or in which armi
+itself raised half way through a mutation, are outside the quantifier and are skipped (counted).
+
 Bound: see ``B = Bounded(...)`` below.
 """
-import contextlib
-import shutil
 import math
 import os
+import shutil
 import sys
 import tempfile
 import time
@@ -51,11 +57,9 @@ from armi.bookkeeping.db import layout as layoutMod
 from armi.bookkeeping.db.database import Database
 from armi.bookkeeping.db.databaseInterface import DatabaseInterface
 from armi.reactor import grids
-from armi.reactor.assemblies import Assembly
 from armi.reactor.blocks import Block
 from armi.reactor.components import Component
 from armi.reactor.composites import Composite
-from armi.reactor.reactors import Core, Reactor
 from armi.testing import TEST_ROOT, loadTestReactor, reduceTestReactorRings
 
 B = Bounded(
@@ -88,7 +92,6 @@ RTOL = 1e-9
 # Component.p.volume / p.area are documented as caches that "are not safe to access directly": getVolume()/getArea()
 # are the observation points (compare_physics)
 LAZY_CACHES = {"volume", "area"}
-MAX_PER_KEY = 1  # one reported example per (id, reactor, key); the rest is counted
 
 
 # ----------------------------------------------------------------------------------------------------------------
@@ -127,7 +130,7 @@ def val_eq(x, y):
     if _isnum(x) and _isnum(y):
         return num_eq(x, y)
     if isinstance(x, (str, bytes)) or isinstance(y, (str, bytes)):
-        return type(x) is type(y) and x == y
+        return isinstance(x, str) == isinstance(y, str) and isinstance(x, bytes) == isinstance(y, bytes) and x == y
     if isinstance(x, dict) or isinstance(y, dict):
         if not (isinstance(x, dict) and isinstance(y, dict)) or set(x) != set(y):
             return False
@@ -191,9 +194,6 @@ class Diffs:
 
     def __bool__(self):
         return bool(self.d)
-
-    def summary(self, limit=6):
-        return [{"clause": c, "key": k, "count": v[0], "first": v[1]} for (c, k), v in list(self.d.items())[:limit]]
 
 
 def tname(o):
@@ -757,6 +757,8 @@ DENY = {
     "topIndex", "axMesh", "axialMesh", "referenceBlockAxialMesh", "orientation", "xsType", "xsTypeNum", "envGroup",
     "envGroupNum", "maxAssemNum", "numberDensities", "volume", "area", "mult", "temperatureInC", "customIsotopicsName",
     "mergeWith", "theoreticalDensityFrac", "detailedNucKeys", "multiplicity", "modArea", "nPins",
+    # scaled in place by Component.setTemperature / changeNDensByFactor together with the number densities
+    "detailedNDens", "pinNDens",
 }
 
 
@@ -895,11 +897,8 @@ def mut_temperature(o, r, rng):
     comps = components(r)
     n = 0
     for c in rng.sample(comps, min(max(3, len(comps) // 10), len(comps), 60)):
-        try:
-            c.setTemperature(float(c.temperatureInC) + rng.uniform(-20.0, 60.0))
-            n += 1
-        except Exception:
-            pass
+        c.setTemperature(float(c.temperatureInC) + rng.uniform(-20.0, 60.0))
+        n += 1
     return ["n=%d" % n]
 
 
@@ -911,11 +910,8 @@ def mut_dimension(o, r, rng):
         if not dims:
             continue
         d = rng.choice(sorted(dims))
-        try:
-            c.setDimension(d, c.getDimension(d, cold=True) * rng.uniform(0.999, 1.001), cold=True)
-            n += 1
-        except Exception:
-            pass
+        c.setDimension(d, c.getDimension(d, cold=True) * rng.uniform(0.999, 1.001), cold=True)
+        n += 1
     return ["n=%d" % n]
 
 
@@ -1037,7 +1033,11 @@ def flush_report():
     for vid, (what, inp, n) in _FIRST.items():
         if isinstance(inp, dict):
             inp = dict(inp, occurrences=n, id=vid, seed=B.seed, tier=B.tier)
-        _rawViolation(vid, what, inp)
+        if len(B.violations) < 20:
+            _rawViolation(vid, what, inp)
+        elif len(B.violations) < 80:
+            # already one entry per id: keep them all, a known class must not push a new one out of the report
+            B.violations.append({"id": vid, "what": what, "input": inp})
 
 
 def _flush_whole_state():
@@ -1262,6 +1262,10 @@ def run_chain(name, chainSeed, kmax, workdir, counters, onlyK=None):
                     res = MUTATIONS[m](o, r, rng)
                 except NotImplementedError:
                     res = None
+                except Exception as e:
+                    # the model itself refused the change half way: the state is not trustworthy, drop the chain
+                    counters["chains_aborted"].append([name, chainSeed, k, m, repr(e)[:120]])
+                    return
                 if res is not None:
                     break
                 counters["mutations_skipped"] += 1
@@ -1284,7 +1288,7 @@ def run_chain(name, chainSeed, kmax, workdir, counters, onlyK=None):
 
 
 def main():
-    counters = {"files": 0, "nodes": 0, "params": 0, "nontrivialParams": 0, "states": 0, "mutations": {}, "mutations_skipped": 0, "time_by_reactor": {}, "states_skipped_invalid": 0}
+    counters = {"files": 0, "nodes": 0, "params": 0, "nontrivialParams": 0, "states": 0, "mutations": {}, "mutations_skipped": 0, "time_by_reactor": {}, "states_skipped_invalid": 0, "chains_aborted": []}
     cwd = os.getcwd()
     with tempfile.TemporaryDirectory(prefix="c04_") as workdir:
         os.chdir(workdir)
@@ -1340,6 +1344,7 @@ def main():
     B.extra["mutations_applied"] = counters["mutations"]
     B.extra["mutations_skipped_not_applicable"] = counters["mutations_skipped"]
     B.extra["states_skipped_overlapping_components"] = counters["states_skipped_invalid"]
+    B.extra["chains_aborted_mutation_raised"] = counters["chains_aborted"]
     B.extra["distinct_grids_rebuilt"] = len(_gridsSeen)
     B.extra["grid_classes_and_symmetries"] = sorted(_gridClasses)
     B.extra["locator_kinds_compared"] = LOCATOR_KINDS
